@@ -2,6 +2,10 @@ import NucsProofs.Basic
 import NucsProofs.Propagators.Scc
 /-!
   no_sub_cycle: no cycle visiting fewer than `n` vertices.
+  Proved: Safe (no out-of-bounds access, the restart loop terminates within the fuel),
+  ContractMono, EntailOk (vacuous), Sound, GroundOk (an accepted permutation has no short cycle),
+  TrigOkP (trigger sufficiency once everything is instantiated).
+  Refuted: `TrigOkW` (`not_trigOkW_noSubCycle`, known finding K3).
 -/
 namespace Nucs
 namespace Nsc
@@ -989,6 +993,487 @@ theorem sem_init {n : Nat} {f : Nat → Nat} (hf : ∀ i, f i < n) : Sem n f (Pa
     fun u _ _ => by rw [hsp _ (hf u), hst _ (hf u)],
     fun v => by rw [hln]; exact Int.le_refl _⟩
 
+/-! ### acceptance of a permutation: exact bookkeeping
+
+  For `GroundOk` the lengths must be exact, not only upper bounds: `Ae`/`Be` the recorded length
+  is the number of steps, `Z`/`ZB` no vertex strictly inside a recorded path can still be linked,
+  `S0` a path reduced to one vertex has length 0, `F` the recorded start of an end was removed
+  from the bounds of its domain whenever the path is shorter than `n - 1`.  When a path is closed
+  into a cycle, `F` shows that it has `n - 1` edges, and `Z` that the cycle is a full one. -/
+
+/-- exactness invariants (used for acceptance of permutations), link case -/
+theorem ex_link (n i j S E : Nat) (f sp st sp' st' ln ln' : Nat → Nat)
+    (hi : i < n) (hjn : j < n)
+    (hinj : ∀ u w, u < n → w < n → f u = f w → u = w)
+    (hE : sp i = i) (hj : f i = j) (hS : st i = S) (hEd : sp j = E)
+    (hEi : E ≠ i)
+    (hsp' : ∀ v, sp' v = if v = S ∨ v = i then E else sp v)
+    (hst' : ∀ v, st' v = if v = E then S else if v = j then S else st v)
+    (hln' : ∀ v, ln' v = if v = E ∨ v = S ∨ v = j ∨ v = i then ln i + 1 + ln j else ln v)
+    (j1 : ∀ e, e < n → sp e = e → sp (st e) = e)
+    (kk : ∀ e v, e < n → v < n → sp e = e → sp v = st e → v = e)
+    (C : ∀ u, u < n → sp u = u → sp (sp (f u)) = sp (f u))
+    (D : ∀ u, u < n → sp u = u → st (sp (f u)) = f u)
+    (Ae : ∀ e, e < n → sp e = e → orb f (st e) (ln e) = e)
+    (Be : ∀ u, u < n → sp u = u → orb f (f u) (ln (f u)) = sp (f u))
+    (Z : ∀ e, e < n → sp e = e → ∀ m, m < ln e → sp (orb f (st e) m) ≠ orb f (st e) m)
+    (ZB : ∀ u, u < n → sp u = u → ∀ m, m < ln (f u) → sp (orb f (f u) m) ≠ orb f (f u) m)
+    (S0 : ∀ e, e < n → sp e = e → st e = e → ln e = 0) :
+    (∀ e, e < n → sp' e = e → orb f (st' e) (ln' e) = e) ∧
+    (∀ u, u < n → sp' u = u → orb f (f u) (ln' (f u)) = sp' (f u)) ∧
+    (∀ e, e < n → sp' e = e → ∀ m, m < ln' e → sp' (orb f (st' e) m) ≠ orb f (st' e) m) ∧
+    (∀ u, u < n → sp' u = u → ∀ m, m < ln' (f u) → sp' (orb f (f u) m) ≠ orb f (f u) m) ∧
+    (∀ e, e < n → sp' e = e → st' e = e → ln' e = 0) := by
+  have spS : sp S = i := by rw [← hS]; exact j1 i hi hE
+  have hSE : S ≠ E := by
+    intro h
+    have := kk i j hi hjn hE (by rw [hEd, hS, h])
+    apply hEi; rw [← hEd, this, hE]
+  have hfix : ∀ v, sp' v = v → v ≠ S ∧ v ≠ i ∧ sp v = v := by
+    intro v h; rw [hsp'] at h; split at h
+    · rename_i hc; rcases hc with hc | hc
+      · exfalso; apply hSE; rw [← hc]; exact h.symm
+      · exfalso; apply hEi; rw [h, hc]
+    · rename_i hc; exact ⟨fun h' => hc (Or.inl h'), fun h' => hc (Or.inr h'), h⟩
+  have hnot : ∀ x, sp x ≠ x → sp' x ≠ x := fun x hx h => hx (hfix x h).2.2
+  have EE : sp E = E := by have := C i hi hE; rw [hj, hEd] at this; exact this
+  have stE : st E = j := by have := D i hi hE; rw [hj, hEd] at this; exact this
+  have pai : orb f S (ln i) = i := by have := Ae i hi hE; rw [hS] at this; exact this
+  have pbj : orb f j (ln j) = E := by have := Be i hi hE; rw [hj, hEd] at this; exact this
+  have pathSE : orb f S (ln i + 1 + ln j) = E := orb_path pai (by rw [hj]; exact pbj)
+  have pathZ : ∀ m, m < ln i + 1 + ln j → sp' (orb f S m) ≠ orb f S m := by
+    intro m hm
+    by_cases c1 : m < ln i
+    · have := Z i hi hE m c1; rw [hS] at this; exact hnot _ this
+    · by_cases c2 : m = ln i
+      · rw [c2, pai]; intro h; exact (hfix i h).2.1 rfl
+      · have hm' : m = (ln i + 1) + (m - (ln i + 1)) := by omega
+        have : orb f S m = orb f j (m - (ln i + 1)) := by
+          rw [hm', orb_add, show orb f S (ln i + 1) = f (orb f S (ln i)) from rfl, pai, hj]
+          congr 1; omega
+        rw [this]
+        have := ZB i hi hE (m - (ln i + 1)) (by rw [hj]; omega)
+        rw [hj] at this; exact hnot _ this
+  -- the vertices whose data is untouched
+  have hstay : ∀ v, v ≠ E → v ≠ S → v ≠ j → v ≠ i → ln' v = ln v := by
+    intro v h1 h2 h3 h4
+    rw [hln', if_neg (by intro h; rcases h with h | h | h | h <;> contradiction)]
+  have hlnE : ln' E = ln i + 1 + ln j := by rw [hln', if_pos (Or.inl rfl)]
+  have hlnS : ln' S = ln i + 1 + ln j := by rw [hln', if_pos (Or.inr (Or.inl rfl))]
+  have hlni : ln' i = ln i + 1 + ln j := by rw [hln', if_pos (Or.inr (Or.inr (Or.inr rfl)))]
+  -- an end of the new state other than `E` is untouched
+  have hend : ∀ e, sp' e = e → e ≠ E → e ≠ j ∧ st' e = st e ∧ ln' e = ln e := by
+    intro e h c1
+    obtain ⟨n1, n2, h0⟩ := hfix e h
+    have c2 : e ≠ j := by intro c2; apply c1; rw [← hEd, ← c2]; exact h0.symm
+    exact ⟨c2, by rw [hst', if_neg c1, if_neg c2], hstay e c1 n1 c2 n2⟩
+  -- the successor of an end of the new state
+  have hsucc : ∀ u, u < n → sp' u = u → f u ≠ j ∧ f u ≠ E ∧ (f u = i → S = i) := by
+    intro u hu h
+    obtain ⟨n1, n2, h0⟩ := hfix u h
+    have hvj : f u ≠ j := by intro h'; exact n2 (hinj u i hu hi (by rw [h', hj]))
+    refine ⟨hvj, ?_, ?_⟩
+    · intro hv
+      have := D u hu h0
+      rw [hv, EE, stE] at this
+      exact hvj (by rw [hv]; exact this.symm)
+    · intro hv
+      have := D u hu h0
+      rw [hv, hE, hS] at this; exact this
+  refine ⟨?_, ?_, ?_, ?_, ?_⟩
+  · intro e he h
+    by_cases c1 : e = E
+    · rw [c1, hst', if_pos rfl, hlnE]; exact pathSE
+    · obtain ⟨_, h1, h2⟩ := hend e h c1
+      rw [h1, h2]; exact Ae e he (hfix e h).2.2
+  · intro u hu h
+    obtain ⟨v1, v2, v3⟩ := hsucc u hu h
+    have h0 := (hfix u h).2.2
+    by_cases c1 : f u = i
+    · have := v3 c1
+      rw [c1, hlni, hsp', if_pos (Or.inr rfl)]
+      rw [this] at pathSE; exact pathSE
+    · by_cases c2 : f u = S
+      · rw [c2, hlnS, hsp', if_pos (Or.inl rfl)]; exact pathSE
+      · rw [hstay _ v2 c2 v1 c1, hsp', if_neg (by intro h; rcases h with h | h <;> contradiction)]
+        exact Be u hu h0
+  · intro e he h m hm
+    by_cases c1 : e = E
+    · rw [c1, hst', if_pos rfl]
+      rw [c1, hlnE] at hm
+      exact pathZ m hm
+    · obtain ⟨_, h1, h2⟩ := hend e h c1
+      rw [h1]; rw [h2] at hm
+      exact hnot _ (Z e he (hfix e h).2.2 m hm)
+  · intro u hu h m hm
+    obtain ⟨v1, v2, v3⟩ := hsucc u hu h
+    have h0 := (hfix u h).2.2
+    by_cases c1 : f u = i
+    · have hSi := v3 c1
+      rw [c1, hlni] at hm
+      rw [c1, ← hSi]; exact pathZ m hm
+    · by_cases c2 : f u = S
+      · rw [c2, hlnS] at hm
+        rw [c2]; exact pathZ m hm
+      · rw [hstay _ v2 c2 v1 c1] at hm
+        exact hnot _ (ZB u hu h0 m hm)
+  · intro e he h hst
+    by_cases c1 : e = E
+    · exfalso; rw [c1, hst', if_pos rfl] at hst; exact hSE hst
+    · obtain ⟨_, h1, h2⟩ := hend e h c1
+      rw [h2]; rw [h1] at hst
+      exact S0 e he (hfix e h).2.2 hst
+
+/-- if the first return of `i` takes at least `n` steps then `f` is one `n`-cycle -/
+theorem full_cycle {f : Nat → Nat} {n i : Nat} (hf : ∀ v, f v < n)
+    (hinj : ∀ u w, u < n → w < n → f u = f w → u = w) (hi : i < n)
+    (hret : ∀ k, 0 < k → k < n → orb f i k ≠ i) :
+    ∀ v, v < n → ∀ k, 0 < k → k < n → orb f v k ≠ v := by
+  have hlt : ∀ m, orb f i m < n := orb_lt hf hi
+  have cancel : ∀ p k, orb f i (p + k) = orb f i p → orb f i k = i := by
+    intro p
+    induction p with
+    | zero => intro k h; simpa [orb] using h
+    | succ p ih =>
+      intro k h
+      rw [show p + 1 + k = (p + k) + 1 by omega] at h
+      exact ih k (hinj _ _ (hlt _) (hlt _) h)
+  have surj : ∀ v, v < n → ∃ p, p < n ∧ orb f i p = v := by
+    intro v hv
+    apply Classical.byContradiction
+    intro hno
+    have hnd : ((List.range n).map (orb f i)).Nodup := by
+      rw [List.nodup_iff_pairwise_ne, List.pairwise_map]
+      refine List.Pairwise.imp_of_mem ?_ (List.pairwise_lt_range (n := n))
+      intro a b _ hb hab e
+      have hb' : b < n := by simpa using hb
+      have := cancel a (b - a) (by rw [show a + (b - a) = b by omega]; exact e.symm)
+      exact hret (b - a) (by omega) (by omega) this
+    have hsub : (List.range n).map (orb f i) ⊆ (List.range n).erase v := by
+      intro x hx
+      simp only [List.mem_map, List.mem_range] at hx
+      obtain ⟨a, ha, rfl⟩ := hx
+      have hne : orb f i a ≠ v := fun h => hno ⟨a, ha, h⟩
+      exact (List.mem_erase_of_ne hne).mpr (by simpa using hlt a)
+    have := hnd.length_le_of_subset hsub
+    rw [List.length_erase_of_mem (by simpa using hv)] at this
+    simp at this
+    omega
+  intro v hv k hk0 hkn h
+  obtain ⟨p, _, rfl⟩ := surj v hv
+  rw [← orb_add] at h
+  exact hret k hk0 hkn (cancel p k h)
+
+
+def lnN (p : Paths) (v : Nat) : Nat := (getI p.len v).toNat
+
+theorem lnN_cast {n : Nat} {f : Nat → Nat} {p : Paths} (hs : Sem n f p) (v : Nat) : ((lnN p v : Nat) : Int) = getI p.len v := by
+  have := hs.N v; unfold lnOf at this; unfold lnN; omega
+
+theorem lnN_mergeP {n i : Nat} {p : Paths} {j : Int} {f : Nat → Nat} (hp : RangeP n p) (hs : Sem n f p) (hi : i < n)
+    (hj0 : 0 ≤ j) (hj1 : j < n) (v : Nat) :
+    lnN (mergeP p i j) v =
+      if v = spOf p j.toNat ∨ v = stOf p i ∨ v = j.toNat ∨ v = i then lnN p i + 1 + lnN p j.toNat
+      else lnN p v := by
+  have h := lnOf_mergeP hp hi hj0 hj1 v
+  have h1 := hs.N i; have h2 := hs.N j.toNat
+  unfold lnOf at h h1 h2
+  unfold lnN
+  rw [h]
+  split
+  · omega
+  · rfl
+
+/-- no short cycle, in terms of the orbit function -/
+def NSCf (n : Nat) (f : Nat → Nat) : Prop := ∀ v, v < n → ∀ k, 0 < k → k < n → orb f v k ≠ v
+
+structure Ex (n : Nat) (f : Nat → Nat) (B : Box) (p : Paths) : Prop where
+  Ae : ∀ e, e < n → spOf p e = e → orb f (stOf p e) (lnN p e) = e
+  Be : ∀ u, u < n → spOf p u = u → orb f (f u) (lnN p (f u)) = spOf p (f u)
+  Z : ∀ e, e < n → spOf p e = e → ∀ m, m < lnN p e → spOf p (orb f (stOf p e) m) ≠ orb f (stOf p e) m
+  ZB : ∀ u, u < n → spOf p u = u → ∀ m, m < lnN p (f u) → spOf p (orb f (f u) m) ≠ orb f (f u) m
+  S0 : ∀ e, e < n → spOf p e = e → stOf p e = e → lnN p e = 0
+  F : ∀ e, e < n → spOf p e = e → stOf p e ≠ e → (lnN p e : Int) < (n : Int) - 1 →
+        (getDom B e).1 ≠ (stOf p e : Int) ∧ (getDom B e).2 ≠ (stOf p e : Int)
+  NE : ∃ e, e < n ∧ spOf p e = e
+
+def Good (n : Nat) (f : Nat → Nat) (B : Box) (p : Paths) : Prop := NSCf n f ∨ Ex n f B p
+
+theorem pruneD_ne (de : Dom) (s : Int) : (pruneD de s).1 ≠ s ∧ (pruneD de s).2 ≠ s := by
+  obtain ⟨a, b⟩ := de
+  simp only [pruneD]
+  by_cases c1 : a = s <;> by_cases c2 : b = s <;> simp only [c1, c2, ↓reduceIte] <;> omega
+
+/-- closing a path into a cycle: the cycle is a full one -/
+theorem close_nsc {n i : Nat} {B : Box} {p : Paths} {f : Nat → Nat} {j : Int}
+    (hs : Sem n f p) (hx : Ex n f B p) (hi : i < n) (hf : ∀ v, f v < n)
+    (hinj : ∀ u w, u < n → w < n → f u = f w → u = w)
+    (hd1 : (getDom B i).1 = j) (hd2 : (getDom B i).2 = j) (hE : spOf p i = i) (hj0 : 0 ≤ j) (hji : j ≠ (i : Int))
+    (hfi : f i = j.toNat) (hcl : spOf p j.toNat = i) : NSCf n f := by
+  have hst : stOf p i = j.toNat := by
+    have := hs.D i hi hE; rw [hfi, hcl] at this; exact this
+  have hne : stOf p i ≠ i := by rw [hst]; omega
+  have hlen : ¬ ((lnN p i : Int) < (n : Int) - 1) := by
+    intro h
+    have := (hx.F i hi hE hne h).1
+    rw [hst, hd1] at this
+    omega
+  have hA := hx.Ae i hi hE
+  have hZ := hx.Z i hi hE
+  rw [hst] at hA hZ
+  apply full_cycle hf hinj hi
+  intro k hk0 hkn h
+  obtain ⟨m, rfl⟩ : ∃ m, k = m + 1 := ⟨k - 1, by omega⟩
+  rw [← orb_shift, hfi] at h
+  have := hZ m (by omega)
+  rw [h] at this
+  exact this hE
+
+/-- a proper link keeps the exact bookkeeping -/
+theorem merge_ex {n i : Nat} {B B' : Box} {p : Paths} {f : Nat → Nat} {j : Int}
+    (h : Inv n B p) (hs : Sem n f p) (hx : Ex n f B p) (hi : i < n)
+    (hinj : ∀ u w, u < n → w < n → f u = f w → u = w)
+    (hE : spOf p i = i) (hj0 : 0 ≤ j) (hj1 : j < n) (hfi : f i = j.toNat) (hcl : spOf p j.toNat ≠ i)
+    (hB' : ∀ v, v ≠ spOf p j.toNat → getDom B' v = getDom B v)
+    (hF : ((lnN p i + 1 + lnN p j.toNat : Nat) : Int) < (n : Int) - 1 →
+      (getDom B' (spOf p j.toNat)).1 ≠ (stOf p i : Int) ∧ (getDom B' (spOf p j.toNat)).2 ≠ (stOf p i : Int)) :
+    Ex n f B' (mergeP p i j) := by
+  have hjn : j.toNat < n := by omega
+  have hsp' := spOf_mergeP (j := j) h.rp hi
+  have hst' := stOf_mergeP (i := i) h.rp hj0 hj1
+  have hln' := lnN_mergeP h.rp hs hi hj0 hj1
+  obtain ⟨a, b, c, d, e⟩ := ex_link n i j.toNat (stOf p i) (spOf p j.toNat) f
+    (spOf p) (stOf p) (spOf (mergeP p i j)) (stOf (mergeP p i j)) (lnN p) (lnN (mergeP p i j))
+    hi hjn hinj hE hfi rfl rfl hcl hsp' hst' hln' h.j1 h.kk hs.C hs.D hx.Ae hx.Be hx.Z hx.ZB hx.S0
+  -- facts about the new ends
+  have spS : spOf p (stOf p i) = i := h.j1 i hi hE
+  have hSE : stOf p i ≠ spOf p j.toNat := by
+    intro h'
+    have := h.kk i j.toNat hi hjn hE (by rw [h'])
+    apply hcl; rw [this, hE]
+  have EE : spOf p (spOf p j.toNat) = spOf p j.toNat := by have := hs.C i hi hE; rw [hfi] at this; exact this
+  have hEn : spOf p j.toNat < n := by have := h.rp.rstop j.toNat hjn; unfold spOf; omega
+  have hfix : ∀ v, spOf (mergeP p i j) v = v → v ≠ stOf p i ∧ v ≠ i ∧ spOf p v = v := by
+    intro v hv; rw [hsp'] at hv; split at hv
+    · rename_i hc; rcases hc with hc | hc
+      · exfalso; apply hSE; rw [← hc]; exact hv.symm
+      · exfalso; apply hcl; rw [hv, hc]
+    · rename_i hc; exact ⟨fun h' => hc (Or.inl h'), fun h' => hc (Or.inr h'), hv⟩
+  refine ⟨a, b, c, d, e, ?_, ?_⟩
+  · intro e' he' hsp hne hlt
+    obtain ⟨n1, n2, h0⟩ := hfix e' hsp
+    by_cases c1 : e' = spOf p j.toNat
+    · rw [c1] at hlt hne ⊢
+      rw [hst', if_pos rfl] at hne ⊢
+      rw [hln', if_pos (Or.inl rfl)] at hlt
+      exact hF hlt
+    · have c2 : e' ≠ j.toNat := by intro c2; apply c1; rw [c2] at h0 ⊢; exact h0.symm
+      have e1 : stOf (mergeP p i j) e' = stOf p e' := by rw [hst', if_neg c1, if_neg c2]
+      have e2 : lnN (mergeP p i j) e' = lnN p e' := by
+        rw [hln', if_neg (by intro h; rcases h with h | h | h | h <;> contradiction)]
+      rw [e1] at hne ⊢; rw [e2] at hlt; rw [hB' e' c1]
+      exact hx.F e' he' h0 hne hlt
+  · refine ⟨spOf p j.toNat, hEn, ?_⟩
+    rw [hsp', if_neg (by intro h; rcases h with h | h; exact hSE h.symm; exact hcl h)]; exact EE
+
+theorem nscf_small {n : Nat} {f : Nat → Nat} (h : n ≤ 1) : NSCf n f := by
+  intro v _ k hk0 hkn; omega
+
+/-- what one visit gives for the acceptance argument -/
+theorem visit_good {n i : Nat} {B : Box} {p : Paths} {t : List Int} (h : Inv n B p) (hs : Sem n (fOf t) p)
+    (hg : Good n (fOf t) B p) (ht : inBox t B) (hf : ∀ v, fOf t v < n)
+    (hinj : ∀ u w, u < n → w < n → fOf t u = fOf t w → u = w) (hi : i < n) :
+    ∀ B' p' a, nscVisit n i B p = .ok B' p' a →
+      Sem n (fOf t) p' ∧ Good n (fOf t) B' p' ∧
+      (∀ v, getDom B' v ≠ getDom B v → v < i → a = true) ∧
+      (spOf p' i = i → (getDom B' i).1 = (getDom B' i).2 → NSCf n (fOf t)) ∧
+      (∀ v, v < n → spOf p' v = v → spOf p v = v) := by
+  intro B' p' a hr
+  have hres := visit_res h hi
+  rw [hr] at hres
+  have hiB : i < B.length := by rw [h.lenB]; exact hi
+  have hti := inBox_get i ht hiB
+  have hstop := h.rp.rstop i hi
+  -- common part of the two linking outcomes
+  have hmerge : ∀ (j : Int) (B1 : Box), (getDom B i).1 = j → (getDom B i).2 = j → getI p.stop i = (i : Int) →
+      ¬ (j = (i : Int) ∧ n > 1) → 0 ≤ j → j < n →
+      (∀ v, v ≠ spOf p j.toNat → getDom B1 v = getDom B v) →
+      (((lnN p i + 1 + lnN p j.toNat : Nat) : Int) < (n : Int) - 1 →
+        (getDom B1 (spOf p j.toNat)).1 ≠ (stOf p i : Int) ∧ (getDom B1 (spOf p j.toNat)).2 ≠ (stOf p i : Int)) →
+      Sem n (fOf t) (mergeP p i j) ∧ Good n (fOf t) B1 (mergeP p i j) ∧
+      (spOf (mergeP p i j) i = i → NSCf n (fOf t)) ∧
+      (∀ v, v < n → spOf (mergeP p i j) v = v → spOf p v = v) := by
+    intro j B1 hd1 hd2 hE hj hj0 hj1 hB1 hF
+    have hfi : fOf t i = j.toNat := by
+      unfold fOf; have : getI t i = j := by omega
+      rw [this]
+    have hEn : spOf p i = i := by simp [spOf, hE]
+    have hsem := (merge_sem h hs hi hinj hE hj0 hj1 hfi).1
+    have a4 := (abs_step n i j.toNat (spOf p) (stOf p)
+          (spOf (mergeP p i j)) (stOf (mergeP p i j)) hi (by omega) hEn
+          (spOf_mergeP h.rp hi) (stOf_mergeP h.rp hj0 hj1) h.j1 h.kk).2.2.2.1
+    rcases hg with hg | hx
+    · exact ⟨hsem, Or.inl hg, fun _ => hg, a4⟩
+    · by_cases hcl : spOf p j.toNat = i
+      · have hnsc : NSCf n (fOf t) := by
+          by_cases hn1 : n ≤ 1
+          · exact nscf_small hn1
+          · exact close_nsc hs hx hi hf hinj hd1 hd2 hEn hj0 (by intro hji; exact hj ⟨hji, by omega⟩) hfi hcl
+        exact ⟨hsem, Or.inl hnsc, fun _ => hnsc, a4⟩
+      · refine ⟨hsem, Or.inr (merge_ex h hs hx hi hinj hEn hj0 hj1 hfi hcl hB1 hF), fun hsp => ?_, a4⟩
+        exfalso
+        obtain ⟨_, _, a3, _, _⟩ := abs_step n i j.toNat (spOf p) (stOf p)
+          (spOf (mergeP p i j)) (stOf (mergeP p i j)) hi (by omega) hEn
+          (spOf_mergeP h.rp hi) (stOf_mergeP h.rp hj0 hj1) h.j1 h.kk
+        exact a3 hcl hsp
+  generalize hB'' : NscStep.ok B' p' a = r at hres
+  cases hres with
+  | skip hc =>
+    injection hB'' with e1 e2 e3; subst e1; subst e2; subst e3
+    refine ⟨hs, hg, fun v hv => absurd rfl hv, fun hsp hgr => ?_, fun _ _ h => h⟩
+    exfalso; apply hc
+    exact ⟨hgr, by unfold spOf at hsp; omega⟩
+  | self => cases hB''
+  | pruneFail => cases hB''
+  | link j hd1 hd2 hE hj hj0 hj1 hL =>
+    injection hB'' with e1 e2 e3; subst e1; subst e2; subst e3
+    obtain ⟨m1, m2, m3, m4⟩ := hmerge j B' hd1 hd2 hE hj hj0 hj1 (fun _ _ => rfl) (fun hlt => by
+      exfalso; apply hL
+      have a1 := lnN_cast hs i; have a2 := lnN_cast hs j.toNat
+      omega)
+    exact ⟨m1, m2, fun v hv => absurd rfl hv, fun hsp _ => m3 hsp, m4⟩
+  | prune j hd1 hd2 hE hj hj0 hj1 hL hemp =>
+    injection hB'' with e1 e2 e3; subst e1; subst e2; subst e3
+    have he := h.rp.rstop j.toNat (by omega)
+    have hst := h.rp.rstart i hi
+    have hEB : (getI p.stop j.toNat).toNat < B.length := by rw [h.lenB]; omega
+    obtain ⟨m1, m2, m3, m4⟩ := hmerge j (B.set (getI p.stop j.toNat).toNat
+        (pruneD (getDom B (getI p.stop j.toNat).toNat) (getI p.start i))) hd1 hd2 hE hj hj0 hj1
+      (fun v hv => by
+        rw [getDom_set, if_neg]
+        intro hc; exact hv hc.1.symm)
+      (fun _ => by
+        have := pruneD_ne (getDom B (getI p.stop j.toNat).toNat) (getI p.start i)
+        have e : ((stOf p i : Nat) : Int) = getI p.start i := by unfold stOf; omega
+        have hset : getDom (B.set (getI p.stop j.toNat).toNat
+            (pruneD (getDom B (getI p.stop j.toNat).toNat) (getI p.start i))) (spOf p j.toNat) =
+            pruneD (getDom B (getI p.stop j.toNat).toNat) (getI p.start i) := by
+          unfold spOf; rw [getDom_set, if_pos ⟨rfl, hEB⟩]
+        rw [hset, e]
+        exact this)
+    refine ⟨m1, m2, fun v hv hvi => ?_, fun hsp _ => m3 hsp, m4⟩
+    rw [getDom_set] at hv
+    split at hv
+    · rename_i hc
+      simp only [decide_eq_true_eq]
+      omega
+    · exact absurd rfl hv
+
+/-- sweep invariant: an end that is instantiated and was passed over forces a restart -/
+def Wv (n : Nat) (f : Nat → Nat) (i : Nat) (B : Box) (p : Paths) (again : Bool) : Prop :=
+  ∀ v, v < i → v < n → spOf p v = v → (getDom B v).1 = (getDom B v).2 → NSCf n f ∨ again = true
+
+theorem sweep_gnd {n : Nat} {t : List Int} (hf : ∀ v, fOf t v < n)
+    (hinj : ∀ u w, u < n → w < n → fOf t u = fOf t w → u = w) :
+    ∀ (k i : Nat) (B : Box) (p : Paths) (again : Bool),
+    Inv n B p → Sem n (fOf t) p → Good n (fOf t) B p → B.Nonempty → Wv n (fOf t) i B p again → i + k ≤ n →
+    ∀ B1 p1 a1, nscSweep n k i B p again = .ok B1 p1 a1 → inBox t B1 →
+      Sem n (fOf t) p1 ∧ Good n (fOf t) B1 p1 ∧ Wv n (fOf t) (i + k) B1 p1 a1
+  | 0, i, B, p, again, _, hs, hg, _, hw, _, B1, p1, a1, hres, _ => by
+    simp only [nscSweep] at hres
+    injection hres with e1 e2 e3; subst e1; subst e2; subst e3
+    exact ⟨hs, hg, hw⟩
+  | k + 1, i, B, p, again, h, hs, hg, hne, hw, hik, B1, p1, a1, hres, ht1 => by
+    have hi : i < n := by omega
+    have hv := visit_ok h hi
+    have hl := visit_le h hne hi
+    simp only [nscSweep] at hres
+    cases hr : nscVisit n i B p with
+    | ok B' p' a =>
+      rw [hr] at hv hl hres
+      simp only [] at hres
+      have hl' := sweep_le k (i + 1) B' p' (again || a) hv.1 hl.2 (by omega)
+      rw [hres] at hl'
+      have htB' : inBox t B' := inBox_of_le ht1 hl'.1
+      have htB : inBox t B := inBox_of_le htB' hl.1
+      obtain ⟨g1, g2, g3, g4, g5⟩ := visit_good h hs hg htB hf hinj hi B' p' a hr
+      have hw' : Wv n (fOf t) (i + 1) B' p' (again || a) := by
+        intro v hvi hvn hsp hgr
+        by_cases c : v < i
+        · by_cases hdom : getDom B' v = getDom B v
+          · rw [hdom] at hgr
+            rcases hw v c hvn (g5 v hvn hsp) hgr with h1 | h1
+            · exact Or.inl h1
+            · right; simp [h1]
+          · right; simp [g3 v hdom c]
+        · have : v = i := by omega
+          subst this
+          exact Or.inl (g4 hsp hgr)
+      have := sweep_gnd hf hinj k (i + 1) B' p' (again || a) hv.1 g1 g2 hl.2 hw' (by omega) B1 p1 a1 hres ht1
+      rw [show i + (k + 1) = i + 1 + k by omega]
+      exact this
+    | fail => rw [hr] at hres; cases hres
+    | oob => rw [hr] at hres; cases hres
+
+theorem loop_gnd {n : Nat} {t : List Int} (hf : ∀ v, fOf t v < n)
+    (hinj : ∀ u w, u < n → w < n → fOf t u = fOf t w → u = w) (hlen : t.length = n) :
+    ∀ (fuel : Nat) (B : Box) (p : Paths) (st : Status),
+    Inv n B p → Sem n (fOf t) p → Good n (fOf t) B p → B.Nonempty →
+    nscLoop n fuel B p = .ok (st, pointBox t) → st ≠ .inc → NSCf n (fOf t)
+  | 0, _, _, _, _, _, _, _, h, _ => by simp [nscLoop] at h
+  | fuel + 1, B, p, st, hI, hs, hg, hne, h, hst => by
+    have ho := sweep_ok n 0 B p false hI (by omega)
+    have hl := sweep_le n 0 B p false hI hne (by omega)
+    simp only [nscLoop] at h
+    cases hr : nscSweep n n 0 B p false with
+    | ok B1 p1 a =>
+      rw [hr] at ho hl h
+      have hw0 : Wv n (fOf t) 0 B p false := fun v hv => by omega
+      cases a with
+      | true =>
+        simp only [] at h
+        have hle := (loop_le fuel B1 p1 st (pointBox t) ho.1 hl.2 h hst).1
+        have ht1 : inBox t B1 := inBox_of_le (inBox_pointBox_self t) hle
+        obtain ⟨s1, s2, _⟩ := sweep_gnd hf hinj n 0 B p false hI hs hg hne hw0 (by omega) B1 p1 true hr ht1
+        exact loop_gnd hf hinj hlen fuel B1 p1 st ho.1 s1 s2 hl.2 h hst
+      | false =>
+        simp only [] at h
+        injection h with h; injection h with h1 h2
+        subst h2
+        obtain ⟨s1, s2, s3⟩ := sweep_gnd hf hinj n 0 (B := B) p false hI hs hg hne hw0 (by omega) _ p1 false hr
+          (inBox_pointBox_self t)
+        rcases s2 with s2 | s2
+        · exact s2
+        · obtain ⟨e, he, hsp⟩ := s2.NE
+          have hgr : (getDom (pointBox t) e).1 = (getDom (pointBox t) e).2 := by
+            rw [Scc.getDom_pointBox (by rw [hlen]; exact he)]
+          rcases s3 e (by omega) he hsp hgr with h' | h'
+          · exact h'
+          · cases h'
+    | fail =>
+      rw [hr] at h; simp only [] at h
+      injection h with h; injection h with h1 _
+      exact absurd h1.symm hst
+    | oob => rw [hr] at h; simp only [] at h; cases h
+
+theorem ex_init {n : Nat} {f : Nat → Nat} {B : Box} (hn : 0 < n) (hf : ∀ i, f i < n) : Ex n f B (Paths.init n) := by
+  have hsp : ∀ v, v < n → spOf (Paths.init n) v = v := by
+    intro v hv; simp [spOf, Paths.init, getI_range _ _ hv]
+  have hst : ∀ v, v < n → stOf (Paths.init n) v = v := by
+    intro v hv; simp [stOf, Paths.init, getI_range _ _ hv]
+  have hln : ∀ v, lnN (Paths.init n) v = 0 := by
+    intro v; simp only [lnN, Paths.init, getI]
+    by_cases hv : v < n
+    · simp [List.getD, hv]
+    · simp [List.getD, hv]
+  refine ⟨fun e he _ => by rw [hln, hst e he]; rfl,
+    fun u _ _ => by rw [hln, hsp _ (hf u)]; rfl,
+    fun e _ _ m hm => by rw [hln] at hm; omega,
+    fun u _ _ m hm => by rw [hln] at hm; omega,
+    fun e _ _ _ => hln e,
+    fun e he _ hne => absurd (hst e he) hne,
+    ⟨0, hn, hsp 0 hn⟩⟩
+
 end Nsc
 
 open Nsc
@@ -1081,6 +1566,34 @@ theorem sound_noSubCycle : Sound .noSubCycle := by
   · have hsol := sol_of_nsc ht hc'.2 hrel
     rw [runAlg_noSubCycle] at hrun
     exact (loop_sem hsol _ _ _ _ _ hI (sem_init (hsol.f_lt (by omega))) ht hrun).1 hst
+
+theorem groundOk_noSubCycle : GroundOk .noSubCycle := by
+  intro ps B st B' t hc hne hrun hst hB'
+  simp only [relW]
+  intro hnd
+  have hc' := hc
+  simp only [Contract] at hc'
+  have hle := (Nsc.out_le hc hne hrun hst).1
+  subst hB'
+  have htB : inBox t B := inBox_of_le (inBox_pointBox_self t) hle
+  have hlen : t.length = B.length := inBox_length htB
+  have hr : Scc.InRange t := Scc.inRange_of_inBox htB hc'.2
+  have hf : ∀ v, Scc.fOf t v < B.length := fun v => hlen ▸ Scc.fOf_lt hr (by omega) v
+  have hinj : ∀ u w, u < B.length → w < B.length → Scc.fOf t u = Scc.fOf t w → u = w := by
+    intro u w hu hw h
+    have h1 := Scc.fOf_cast hr (by omega : u < t.length)
+    have h2 := Scc.fOf_cast hr (by omega : w < t.length)
+    have e : getI t u = getI t w := by rw [← h1, ← h2, h]
+    have hu' : u < t.length := by omega
+    have hw' : w < t.length := by omega
+    exact (List.getD_inj hu' hw' hnd).mp e
+  rw [runAlg_noSubCycle] at hrun
+  have hnsc := loop_gnd hf hinj hlen _ B _ st (inv_init hc'.2) (sem_init hf) (Or.inr (ex_init (by omega) hf)) hne hrun hst
+  intro v hv k hk0 hkn
+  rw [Scc.iterSucc_orb hr k v hv]
+  intro h
+  have : Scc.orb (Scc.fOf t) v k = v := by injection h with h; omega
+  exact hnsc v (by omega) k hk0 (by omega) this
 
 theorem Nsc.within_of_le {B' B : Box} {lo hi : Int} (hle : Box.le B' B) (hw : B.within lo hi) : B'.within lo hi := by
   intro d hd
